@@ -38,7 +38,7 @@ RULE = ("A Hypothesis RuleBasedStateMachine over a shared pool (2-3 shell object
         "freshly constructed, never shared copies (1e-13; both raising counts as equal); a shell is unit-normalised as "
         "constructed and after renormalise.  Non-trivial history: a valid call repeated after a different intervening call, an "
         "invalid call followed by a valid one, or set_param + renormalise followed by a call.")
-ASSUMPTIONS = ["histories up to 25 steps over the listed public functions; object kinds outside the pool are not covered"]
+ASSUMPTIONS = ["histories up to 20 (quick) / 30 (thorough) steps over the listed public functions; object kinds outside the pool are not covered"]
 
 VALID = [q.name for q in quant.ALL] + ["overlap_integral_asymmetric", "overlap_integral[screened]", "make_contractions",
                                        "parse_nwchem", "parse_gbs", "evaluate_density_using_evaluated_orbs",
@@ -493,7 +493,7 @@ def machine(shard, report):
 
 
 def shards(tier):
-    k, n, steps = (16, 6, 20) if tier == "quick" else (64, 30, 25)
+    k, n, steps = (16, 6, 20) if tier == "quick" else (64, 30, 30)
     return [{"id": i, "n": n, "steps": steps, "cost": n * steps} for i in range(k)]
 
 
